@@ -33,6 +33,8 @@ def run(c):
                 if i % 4 == 0 and len(ops) > 1:
                     ops = ops[:1] + [["probe"]] + ops[1:]
                 params = dict(pe.START[start], ops=ops, recursive=rec, paced=True, spell="str")
+                if i % 3 == 1:
+                    params["names"] = pe.PREFIX_NAMES
                 for spec in pe.timings(c.seed + i, n_random=1, n_pct=1 if c.thorough else 0):
                     cases.append((params, spec))
     c.note(f"{nh} directory-shaping paced histories of <= {K} operations from the TLC graph of FsGen.tla")
